@@ -8,6 +8,17 @@ claimed = {
  "C07": (A, "Same executions as C06 with the happens-before (vector clock) race detector on the cell write/take events under the declared orderings, and exactly-once drop accounting of tracked payloads after the channel is dropped.", "5"),
  "C08": (A, "Same executions as C06; every send/recv (also nested in a handler frame interrupting a send/recv on its own thread, with injected spurious CAS failures) must finish within 4 own steps + its failed compare-exchanges, never panic, never livelock (step horizon), never crash the process.", "5"),
 }
+
+claimed.update({
+ "C01": (A, "Half-lock in small scope (1-2 writers x 1-2 stores, 1-3 readers, a read nested in the writer at every operation boundary; every interleaving for the smallest, deviation-bounded otherwise, stale reads allowed by the declared orderings) and the process-global registry with kernel-delivered signals (unregister / unregister_signal vs delivery threads and nested arrivals in the mutator). Oracles on every execution: no snapshot opened after release or released while a section is open (event monitor), vector-clock race detector between section open/close and release, captured state released exactly once, before removal returns, by the removing thread, outside handler frames; no invocation in progress or started after removal returned.", "5"),
+ "C02": (A, "Registry mutator chains (register/unregister/unregister_signal/first registration, one or two signals, one or two mutators) against delivery threads and nested arrivals; per delivery the set and order of actions run must equal the action list of one registry state current during the delivery, with must-run / must-not-run cross-checks from call/return indices.", "5"),
+ "C03": (A, "Every built-in action installed on one signal (flags, conditional shutdown/default, self-pipes of three kinds empty and full, three iterator exfiltrators); deliveries from another thread and nested at every operation boundary of registry, iterator and channel mutators. Engine-wide monitors: no Mutex, yield/spin hint, blocking read or heap allocation/free by library code inside a handler frame (global allocator wrapper), every delivery returns, un-preempted deliveries finish within the step bound fixed from the code; a blocked or crashing handler is caught by the worker watchdog.", "5"),
+ "C04": (A, "First registration (with a concurrent first registration of another signal) vs deliveries at every instant, for previous dispositions default/ignore/one-argument/three-argument; the kernel's real disposition table decides what runs. Per delivery: foreign handler exactly once, before any action, right convention and non-null info/context; afterwards the library handler is installed with SA_SIGINFO|SA_RESTART.", "5"),
+ "C09": (A, "Real Signals / SignalsInfo<WithRawSiginfo> / SignalDelivery / poll_signal consumers over a real socket pair against 1-2 delivery threads, add_signal from another thread and nested arrivals inside the consumer (every boundary incl. all 128 scan steps). At quiescence (nobody else runnable) a blocked consumer with an unreported delivery is the lost wake-up; every delivery must be followed by a yield after its store (payload-exact for the info-carrying exfiltrator).", "5"),
+ "C10": (A, "Same executions as C09 with counting oracles at every yield (yields <= deliveries begun since added; only watched numbers), payload-exact record matching (each queued delivery at most one record, faithful copy, delivery order for non-overlapping deliveries) and a burst of 7 deliveries against the 5-deep buffer.", "5"),
+ "C11": (A, "close() from 1-2 handle clones at every instant against wait / forever / pending / poll_signal consumers with a concurrent delivery: is_closed sticky, every consumer terminates (deadlock/livelock detection), forever ends, and every PollResult::Pending was preceded in the same call by a callback consultation that answered not-ready.", "5"),
+ "C18": (A, "Half-lock writers vs re-entering readers (every interleaving for 1 writer + 2 readers) and registry mutators on one or two signals including one that panics on a forbidden signal, with delivery threads and nested arrivals inside the barrier; fair scheduling (a yielding spinner is only re-run after someone else moved): any deadlock, any state where only yielding threads remain, or the step horizon is a violation.", "5"),
+})
 pending = {}
 allp = [json.loads(l)["id"] for l in open("/verif/properties.jsonl")]
 checks = []
